@@ -106,10 +106,10 @@ def rho (S T : List Nat) (x : Nat) : Nat :=
 def contract (S T : List Nat) (edges : List (Nat × Nat)) : List E :=
   (edges.filter fun e => rho S T e.1 != rho S T e.2).map fun e => (rho S T e.1, rho S T e.2, 1)
 
-/-- the source side the reported left set claims in the contracted graph: node 0, the left nodes, and
-    the outside nodes a left node points to -/
-def sideOf (edges : List (Nat × Nat)) (sorted left : List Nat) (p : Nat) : Bool :=
-  p == 0 || (decide (2 ≤ p) &&
+/-- the source side the reported left set claims in the contracted graph: node 0, the non-contracted left
+    nodes, and the outside nodes a left node points to -/
+def sideOf (edges : List (Nat × Nat)) (sorted : List Nat) (k : Nat) (left : List Nat) (p : Nat) : Bool :=
+  p == 0 || (decide (2 ≤ p) && !(firstK sorted k).contains (p - 2) && !(lastK sorted k).contains (p - 2) &&
     (left.contains (p - 2) ||
       (!sorted.contains (p - 2) && edges.any fun e => left.contains e.1 && e.2 == p - 2)))
 
@@ -162,12 +162,19 @@ def cutCertWhy (es : List E) (s t : Nat) (res : List E) (value : Int) (inA : Nat
     "the left side is a minimum cut but not the inclusion-minimal one (it contains a node that is not reachable in the residual graph)"
   else "ok"
 
-/-- the whole check the judge runs for a cell with pairwise distinct keys -/
+/-- the whole check the judge runs for a cell with pairwise distinct keys: domain, structural clauses,
+    every left node is a node of the contracted flow graph (a node all of whose edges are self-loops is
+    not, and must be on the right), and the min-cut certificate (flow 0 when no edge connects two
+    different contracted nodes) -/
 def checkerOK (edges : List (Nat × Nat)) (sorted : List Nat) (k : Nat) (flow : Int)
     (left right : List Nat) (res : List E) (tree : List (Nat × Nat)) : Bool :=
+  let S := firstK sorted k
+  let T := lastK sorted k
+  let ces := contract S T edges
   preOK edges sorted k && structOK edges sorted k flow left right &&
-  cutCertOK (contract (firstK sorted k) (lastK sorted k) edges) 0 1 res flow
-    (sideOf edges sorted left) tree
+  left.all (fun x => decide (rho S T x < nNodes ces)) &&
+  (if ces.isEmpty then decide (flow = 0)
+   else cutCertOK ces 0 1 res flow (sideOf edges sorted k left) tree)
 
 /-! ### exact binary64 rounding -/
 
